@@ -447,6 +447,61 @@ theorem lowOrder_xz_zero :
   decide +kernel
 
 
+set_option maxRecDepth 100000 in
+theorem encodeU_zero : encodeU 0 = zeros 32 := by decide
+
+theorem fmul_zero_right (x : Nat) : fmul x 0 = 0 := by
+  show (x * 0) % p = 0
+  rw [Nat.mul_zero]; exact Nat.zero_mod _
+
+theorem fmul_zero_left (y : Nat) : fmul 0 y = 0 := by
+  show (0 * y) % p = 0
+  rw [Nat.zero_mul]; exact Nat.zero_mod _
+
+theorem ladder_zero_of_xz (k u : Nat) (h : (ladderXZ k u).2 = 0 ∨ (ladderXZ k u).1 = 0) : ladder k u = 0 := by
+  rw [ladder_eq_XZ]
+  rcases h with h | h
+  · rw [h, finv_zero]; exact fmul_zero_right _
+  · rw [h]; exact fmul_zero_left _
+
+/-- **u ≡ 0 mod p (encodings 0, p and their top-bit aliases): X25519 errs for EVERY scalar**, and
+    ScalarMult writes 32 zero bytes -/
+theorem X25519_err_of_u_zero (s pt : Bytes) (hs : s.length = 32) (hp : pt.length = 32)
+    (h : decodeU pt % p = 0) :
+    rfcX25519 s pt = zeros 32 ∧ X25519 rfcX25519 s pt = .err := by
+  have hz : rfcX25519 s pt = zeros 32 := by
+    unfold rfcX25519
+    rw [ladder_zero_of_u_zero _ _ h, encodeU_zero]
+  exact ⟨hz, (X25519_err_iff_zero rfcX25519 rfcX25519_length s pt hs hp).1.mpr hz⟩
+
+/-- the four 32-byte strings with `decodeU ≡ 0` -/
+theorem u_zero_encodings :
+    ∀ u ∈ [natToLE 32 0, natToLE 32 p, natToLE 32 (2 ^ 255), natToLE 32 (p + 2 ^ 255)],
+      u.length = 32 ∧ decodeU u % p = 0 := by
+  decide +kernel
+
+theorem lowOrderEncodings_length : ∀ u ∈ lowOrderEncodings, u.length = 32 := by decide +kernel
+theorem sampleScalars_length : ∀ k ∈ sampleScalars, k.length = 32 := by decide +kernel
+
+/-- **finite statement (a test, evaluated by the kernel)**: on all 14 encodings of the 7 low-order
+    u-coordinates, for three scalars (all-zero, all-ones, the RFC 7748 vector scalar), the RFC
+    function value is all zero and X25519 reports an error. -/
+theorem x25519_zero_on_low_order :
+    ∀ u ∈ lowOrderEncodings, ∀ k ∈ sampleScalars,
+      rfcX25519 k u = zeros 32 ∧ X25519 rfcX25519 k u = .err := by
+  intro u hu k hk
+  have hz : rfcX25519 k u = zeros 32 := by
+    unfold rfcX25519
+    rw [ladder_zero_of_xz _ _ (lowOrder_xz_zero u hu k hk), encodeU_zero]
+  have hul : u.length = 32 := lowOrderEncodings_length u hu
+  have hkl : k.length = 32 := sampleScalars_length k hk
+  exact ⟨hz, (X25519_err_iff_zero rfcX25519 rfcX25519_length k u hkl hul).1.mpr hz⟩
+
+/-- and the converse on instances: the base point is not low order for these scalars -/
+theorem x25519_nonzero_on_basepoint_samples :
+    ∀ k ∈ sampleScalars, (ladderXZ (decodeScalar k) 9).2 % p ≠ 0 ∧ (ladderXZ (decodeScalar k) 9).1 % p ≠ 0 := by
+  decide +kernel
+
 /-! ## what is not proved -/
 
 /-- Full statement, part 1 (functional): the real X25519 is the RFC function. Over the model this
